@@ -518,8 +518,9 @@ def r7(cx):
     pa = Prov(m, "alias")
     exc = load_exc("c03_exceptions.json")
     n = 0
+    from rules.c01 import resumer_view
     for pat in RESUMERS:
-        f = m.one(pat)
+        f = resumer_view(m, m.one(pat))
         execs = [c for c in f.calls() if c.q == T.Q_EXEC]
         scheds = [c for c in f.calls() if c.q == T.Q_SCHED]
         closes = [c for c in f.calls() if c.q == T.Q_SET_STATE and pa.root(f, c.args[1])[0] == "agg" and pa.root(f, c.args[1])[2] == "Completed"]
